@@ -500,6 +500,11 @@ func newC13Side(name string, mid0 int32, le int, link *c13Link, handler func(sid
 		// C12: a message handed over to a waiting caller is released by that caller before the receive
 		// path runs its own clean-up (the order in which a lost hijack flag shows as a double release)
 		cfg.ProcessReceivedMessage = func(req *pool.Message, cc *client.Conn, handler config.HandlerFunc[*client.Conn]) {
+			defer func() {
+				if r := recover(); r != nil {
+					activeTracker.notePanic(r) // a panic on the receive path is an observable, not a crash of hx
+				}
+			}()
 			cc.ProcessReceivedMessageWithHandler(req, func(w *responsewriter.ResponseWriter[*client.Conn], r *pool.Message) {
 				handler(w, r)
 				if r.IsHijacked() {
@@ -1345,11 +1350,11 @@ func runC13History(le int, ops []string) (string, bool, []string) {
 			continue
 		}
 		p.apply(op)
-		if p.hung {
-			break
+		if p.hung || (activeTracker != nil && activeTracker.bad()) {
+			break // (C12: the trace already contains a violation; the corrupted pool would only make the rest hang)
 		}
 	}
-	if !p.hung {
+	if !p.hung && !(activeTracker != nil && activeTracker.bad()) {
 		p.finish()
 	}
 	bad := append([]string{}, p.flags...)
